@@ -223,7 +223,8 @@ def withPrior (core : Option (Array (Rat × Rat))) (p : Array Rat) (share : Rat)
     (f x pv, b + 16 * u24 * (absR x + absR pv / share))).toArray
 
 /-- `accumulate_Hessian_times_input` / `add_multiplication_with_approximate_Hessian` on an object with a prior
-    (`hessTimesPenFull` / `approxHessPenFull` of the model, with `imageAt` evaluated through `accumulate`: `C05_accumulate_is_image`):
+    (`penFullAccumulate` of the model = `hessTimesPenFull` / `approxHessPenFull` on the subset products, which are evaluated
+    through `accumulate`: `C05_accumulate_is_image`, `C05_penFullAccumulate_is_hessTimesPenFull`):
     `step c0 ids` = the unpenalised subset product subtracted from an output filled with 0, per subset -/
 def penFullCore (c : Ctx) (step : Ctx → Rat → List Nat → Option (Array (Rat × Rat))) (n : Nat) (c0 : Rat) (pin : Array Rat)
     (subsets : List (List Nat)) : Option (Array (Rat × Rat)) := do
@@ -232,7 +233,7 @@ def penFullCore (c : Ctx) (step : Ctx → Rat → List Nat → Option (Array (Ra
   some ((List.range c.nvox).map fun v =>
     let pv := pin.getD v 0
     -- (`hessTimes … o S v = o − (product)`; `step` with output 0 gives `−(product)`)
-    let x := parts.foldl (fun o part => penalisedHess (o + (part.getD v (0, 0)).1) pv nn) c0
+    let x := penFullAccumulate (parts.map fun part => -(part.getD v (0, 0)).1) pv nn c0
     let b := parts.foldl (fun s part => s + (part.getD v (0, 0)).2) 0
     let m := parts.foldl (fun s part => s + absR (part.getD v (0, 0)).1) (absR c0 + absR pv)
     (x, b + 8 * ((subsets.length : Int) + 1 : Rat) * u24 * m)).toArray
